@@ -334,6 +334,7 @@ func c05Directed() []Directed {
 func init() {
 	Register(&Engine{
 		ID:       "C05",
+		Anchors:  []string{"tree.go:Handler", "syntax.go:Interceptors.Split", "syntax.go:splitString", "segment.go:Interceptors.NewSegment", "match.go:Hosts.Match", "match.go:validOptionalPort", "match.go:pathVersion.Match", "match.go:headerVersion.Match", "mux.go:CheckSyntax", "mux.go:URL", "group.go:ServeHTTP"},
 		Cases:    func(t string) int { return map[string]int{"quick": 400, "thorough": 40000}[t] },
 		Run:      runC05,
 		Directed: c05Directed,
